@@ -1423,10 +1423,14 @@ int32_t tls13ParseClientHello(ssl_t *ssl,
     }
 
     /* Extension extensions<8..2^16-1>; */
+    ssl->tls13PeerCipherSuites = cipherSuitesStart;
+    ssl->tls13PeerCipherSuitesLen = cipherSuitesLen;
     rc = tls13ParseExtensions(ssl,
             pb,
             SSL_HS_CLIENT_HELLO,
             handleTls13Message);
+    ssl->tls13PeerCipherSuites = NULL;
+    ssl->tls13PeerCipherSuitesLen = 0;
     if (rc < 0)
     {
         return rc;
@@ -1601,6 +1605,28 @@ int32_t tls13ParseServerHello(ssl_t *ssl,
         ssl->err = SSL_ALERT_ILLEGAL_PARAMETER;
         psTraceIntInfo("Can't support requested cipher: %d\n", cipher);
         return MATRIXSSL_ERROR;
+    }
+    if (ssl->tls13ClientCipherSuitesLen > 0)
+    {
+        /* An explicit suite list was offered in this handshake: the server
+           must have picked from it (a server resuming by PSK may otherwise
+           answer with the suite of the earlier session) */
+        psSize_t k;
+
+        for (k = 0; k < ssl->tls13ClientCipherSuitesLen; k++)
+        {
+            if (ssl->tls13ClientCipherSuites[k] == cipher)
+            {
+                break;
+            }
+        }
+        if (k == ssl->tls13ClientCipherSuitesLen)
+        {
+            ssl->err = SSL_ALERT_ILLEGAL_PARAMETER;
+            psTraceIntInfo("Server chose a suite we did not offer: %d\n",
+                    cipher);
+            return MATRIXSSL_ERROR;
+        }
     }
     if (compressionMethod != 0)
     {
